@@ -4,7 +4,7 @@ from evalutil import *
 
 ID = "C17"
 LEVEL = "proof"
-MODULES = ["H3Proofs.Props.C17"]
+MODULES = ["H3Proofs.Props.C17", "H3Proofs.Props.C17Disk"]
 THEOREMS = "auto"
 ASSUMPTIONS = ["compactCells / gridDisk / areNeighborCells are modelled with their exact allocation structure "
                "(traces compared event by event, sizes included, at every failure index); for the three polygon "
